@@ -280,7 +280,9 @@ IDS = ('x', 'y')
 
 
 def levels(depth, y_acts=ACTS):
-    stmt_levels = [(k, ax, ay) for k in ('def', 'class') for ax in ACTS for ay in y_acts]
+    def_acts = ACTS + ('param', 'posonly', 'kwonly')
+    stmt_levels = [('class', ax, ay) for ax in ACTS for ay in y_acts]
+    stmt_levels += [('def', ax, ay) for ax in def_acts for ay in (def_acts if len(y_acts) > 1 else y_acts)]
     expr_levels = [(k, ax, ay) for k in ('lambda', 'comp') for ax in ('none', 'bind') for ay in (('none', 'bind') if len(y_acts) > 1 else ('none',))]
 
     def rec(d, expr_only):
@@ -325,7 +327,21 @@ def render_scope(modbind, ls):
             lines.append(pad + 'r%d = %s' % (n, expr(ls)))
             return
         name = '%s%d' % ('f' if k == 'def' else 'K', n)
-        lines.append(pad + ('def %s():' % name if k == 'def' else 'class %s:' % name))
+        if k == 'def':
+            po = [v for v, a in zip(IDS, (ax, ay)) if a == 'posonly']
+            pp = [v for v, a in zip(IDS, (ax, ay)) if a == 'param']
+            kw = [v for v, a in zip(IDS, (ax, ay)) if a == 'kwonly']
+            sig = []
+            if po:
+                sig += po + ['/']
+            elif pp:
+                sig += ['p0', '/']        # a positional-only parameter in front of the ordinary ones
+            sig += pp
+            if kw:
+                sig += ['*'] + kw
+            lines.append(pad + 'def %s(%s):' % (name, ', '.join(sig)))
+        else:
+            lines.append(pad + 'class %s:' % name)
         for v, a in zip(IDS, (ax, ay)):
             if a in ('global', 'nonlocal', 'global-decl'):
                 lines.append(pad + '    %s %s' % (a.split('-')[0], v))
